@@ -5,6 +5,7 @@ import Mathlib.Tactic.Positivity
 import Mathlib.Tactic.FinCases
 import Mathlib.Tactic.NormNum
 import Mathlib.Algebra.BigOperators.Field
+import PyGam.Gen.Tables
 /-!
 # C08 — reported model statistics equal their documented definitions at the fit
 
@@ -430,5 +431,13 @@ example : exF.U1 * exF.U1ᵀ + (!![4/5] : Matrix (Fin 1) (Fin 1) ℚ) * (!![4/5]
 example : trace (exF.U1 * exF.U1ᵀ) = 9 / 25 := by decide +kernel
 
 example : exF.WB ≠ 0 := by decide +kernel
+
+/-! ### tie to the source by translation -/
+
+/-- the `gamma` default of `_estimate_GCV_UBRE` in the source is the model's, and `add_scale` defaults to `True` -/
+theorem gen_gamma : Gen.gcvGamma = some (Stats.gammaDefault (α := ℚ)) ∧ Gen.ubreAddScale = some true := by
+  constructor
+  · decide +kernel
+  · decide
 
 end PyGam.C08
